@@ -1,6 +1,7 @@
 package main
 
 import (
+	"context"
 	"encoding/json"
 	"flag"
 	"fmt"
@@ -36,6 +37,8 @@ func main() {
 		os.Exit(cmdReplay(os.Args[2:]))
 	case "selftest":
 		os.Exit(cmdSelftest(os.Args[2:]))
+	case "core":
+		os.Exit(cmdCore(os.Args[2:]))
 	}
 	fmt.Fprintln(os.Stderr, "unknown command", os.Args[1])
 	os.Exit(2)
@@ -94,6 +97,7 @@ func cmdVerify(args []string) int {
 	timeout := fs.Int("timeout", 10000, "per-solver timeout (ms)")
 	locks := fs.Bool("locks", false, "lock discipline obligations")
 	showSMT := fs.Bool("smt", false, "print SMT of failed obligations")
+	showOnly := fs.String("show", "", "print goal and SMT of obligations whose name contains this")
 	repo := fs.String("repo", repoDir, "repository root")
 	fs.Parse(args)
 	eng := mustEngine(*repo)
@@ -113,6 +117,9 @@ func cmdVerify(args []string) int {
 			res = eng.verifyFunction(fn, eng.specs.Funcs[a], *locks)
 		}
 		eng.solveAll(res.Obls, *timeout, false)
+		for _, n := range postVacuity(res.Obls) {
+			fmt.Println("  note: path unreachable under the contracts in force:", n)
+		}
 		fmt.Printf("== %s: %d paths, %d obligations (+%d trivial)\n", res.Key, res.Paths, len(res.Obls), res.Trivial)
 		if res.Panic != "" {
 			fmt.Println("  ENGINE PANIC:", res.Panic)
@@ -132,7 +139,7 @@ func cmdVerify(args []string) int {
 		for _, o := range res.Obls {
 			ok := o.Status == "unsat"
 			if o.ExpectSat {
-				ok = o.Status == "sat"
+				ok = o.Status != "unsat"
 			}
 			mark := "ok  "
 			if !ok {
@@ -140,6 +147,13 @@ func cmdVerify(args []string) int {
 				rc = 1
 			}
 			fmt.Printf("  %s %-8s %5dms %-7s %s  [%s]\n", mark, o.Status, o.TimeMs, o.Solver, o.Name, o.Pos)
+			if *showOnly != "" && strings.Contains(o.Name, *showOnly) {
+				fmt.Printf("       goal: %s\n", o.Goal.S)
+				for _, p := range o.Path {
+					fmt.Println("       path:", p)
+				}
+				fmt.Println(smtText(o, false))
+			}
 			if !ok {
 				fmt.Printf("       goal: %s\n       text: %s\n", trunc(o.Goal.S, 300), o.Text)
 				for _, p := range o.Path {
@@ -282,7 +296,40 @@ func flagSet(fs *flag.FlagSet, name string) bool {
 	return found
 }
 
+// postVacuity: a path whose assumptions are contradictory is unreachable under
+// the contracts in force; that is reported, not failed — unless every path of a
+// function is unreachable (then its proof is vacuous).
+func postVacuity(obls []*Obligation) []string {
+	byFunc := map[string][]*Obligation{}
+	for _, o := range obls {
+		if o.Kind == "vacuity" && strings.Contains(o.Name, "path-feasible") {
+			byFunc[o.Func] = append(byFunc[o.Func], o)
+		}
+	}
+	var info []string
+	for _, os_ := range byFunc {
+		feasible := 0
+		for _, o := range os_ {
+			if o.Status != "unsat" {
+				feasible++
+			}
+		}
+		if feasible == 0 {
+			continue // all paths infeasible: leave as failures
+		}
+		for _, o := range os_ {
+			if o.Status == "unsat" {
+				o.Status = "unreachable"
+				info = append(info, o.Name+" ["+o.Pos+"]")
+			}
+		}
+	}
+	sort.Strings(info)
+	return info
+}
+
 type checkReport struct {
+	Infeasible       []string
 	Prop             string
 	Tier             string
 	Seed             int
@@ -360,12 +407,13 @@ func (eng *Engine) checkProperty(prop string, timeoutMs int, all bool, verbose b
 		}
 	}
 	eng.solveAll(rep.All, timeoutMs, all)
+	rep.Infeasible = postVacuity(rep.All)
 	known := loadKnownFindings()
 	led := loadLedger(prop)
 	for _, o := range rep.All {
 		ok := o.Status == "unsat"
 		if o.ExpectSat {
-			ok = o.Status == "sat"
+			ok = o.Status != "unsat"
 		}
 		rep.solverMs += o.TimeMs
 		if ok {
@@ -382,7 +430,7 @@ func (eng *Engine) checkProperty(prop string, timeoutMs int, all bool, verbose b
 	for _, o := range rep.All {
 		ok := o.Status == "unsat"
 		if o.ExpectSat {
-			ok = o.Status == "sat"
+			ok = o.Status != "unsat"
 		}
 		if ok {
 			continue
@@ -494,7 +542,7 @@ func (rep *checkReport) finish(prop string, writeEvidence bool) int {
 	}
 	n := 0
 	for _, o := range rep.All {
-		if o.Status == "unsat" || (o.ExpectSat && o.Status == "sat") {
+		if (!o.ExpectSat && o.Status == "unsat") || (o.ExpectSat && o.Status != "unsat") {
 			n++
 		}
 	}
@@ -534,7 +582,7 @@ func (rep *checkReport) writeEvidence(prop string, violations int) {
 			continue
 		}
 		claimed++
-		if o.Status == "unsat" || (o.ExpectSat && o.Status == "sat") {
+		if (!o.ExpectSat && o.Status == "unsat") || (o.ExpectSat && o.Status != "unsat") {
 			discharged++
 		}
 	}
@@ -690,3 +738,64 @@ func (eng *Engine) writeReplayText(prop, name, note string) string {
 }
 
 var _ = ssa.GlobalDebug
+
+// cmdCore: debugging aid — minimal contradictory subset of the assumptions of
+// an obligation (by name substring).
+func cmdCore(args []string) int {
+	fs := flag.NewFlagSet("core", flag.ExitOnError)
+	name := fs.String("name", "", "obligation name substring")
+	fs.Parse(args)
+	eng := mustEngine(repoDir)
+	defer os.RemoveAll(eng.tmpdir)
+	for _, a := range fs.Args() {
+		fn := eng.funcs[a]
+		if fn == nil {
+			continue
+		}
+		res := eng.verifyFunction(fn, eng.specs.Funcs[a], false)
+		for _, o := range res.Obls {
+			if !strings.Contains(o.Name, *name) {
+				continue
+			}
+			var asserts []int
+			for i, l := range o.Lines {
+				if strings.HasPrefix(l, "(assert") {
+					asserts = append(asserts, i)
+				}
+			}
+			drop := map[int]bool{}
+			check := func() string {
+				var b strings.Builder
+				b.WriteString("(set-logic ALL)\n")
+				for i, l := range o.Lines {
+					if !drop[i] {
+						b.WriteString(l + "\n")
+					}
+				}
+				b.WriteString("(check-sat)\n")
+				f := filepath.Join(eng.tmpdir, "core.smt2")
+				os.WriteFile(f, []byte(b.String()), 0o644)
+				st, _ := runSolver(context.Background(), solvers[0], f, 3000)
+				return st
+			}
+			if check() != "unsat" {
+				fmt.Println(o.Name, ": assumptions not unsat")
+				continue
+			}
+			for _, i := range asserts {
+				drop[i] = true
+				if check() != "unsat" {
+					drop[i] = false
+				}
+			}
+			fmt.Println("core of", o.Name)
+			for _, i := range asserts {
+				if !drop[i] {
+					fmt.Println("  ", trunc(o.Lines[i], 500))
+				}
+			}
+			break
+		}
+	}
+	return 0
+}
